@@ -57,7 +57,10 @@ func (x *FnExec) call(fr *frame, n *node, in ssa.Instruction, c *ssa.CallCommon,
 	}
 	key := calleeKey(c)
 	fr.callOrd[key]++
-	ord := fr.callOrd[key]
+	ord := fr.siteOrd[in]
+	if ord == 0 {
+		ord = fr.callOrd[key]
+	}
 
 	var args []Val
 	for _, a := range c.Args {
@@ -65,7 +68,7 @@ func (x *FnExec) call(fr *frame, n *node, in ssa.Instruction, c *ssa.CallCommon,
 	}
 
 	// effect guards on calls
-	x.callGuards(fr, n, in, c, key, args, reach)
+	x.callGuards(fr, n, in, c, key, args, reach, ord)
 	calleeRef := ""
 	if _, isFn := c.Value.(*ssa.Function); !isFn && !c.IsInvoke() {
 		if _, isB := c.Value.(*ssa.Builtin); !isB {
@@ -349,12 +352,15 @@ func (x *FnExec) deAddr(v Val) Val {
 // Effect guards and ghost updates at call sites
 // ---------------------------------------------------------------------------
 
-func (x *FnExec) callGuards(fr *frame, n *node, in ssa.Instruction, c *ssa.CallCommon, key string, args []Val, reach string) {
+func (x *FnExec) callGuards(fr *frame, n *node, in ssa.Instruction, c *ssa.CallCommon, key string, args []Val, reach string, ord int) {
 	for _, g := range x.eng.specs.Guards {
 		if g.Kind != "call" || !guardMatchesCallee(g.Target, key) {
 			continue
 		}
 		if g.In != "" && !strings.HasSuffix(funcKey(x.top), "."+g.In) && !strings.HasSuffix(funcKey(fr.fn), "."+g.In) {
+			continue
+		}
+		if g.Ord != 0 && g.Ord != ord {
 			continue
 		}
 		extra := map[string]Val{}
